@@ -169,7 +169,7 @@ type chistory struct {
 	Series bool  `json:"series,omitempty"` // series ids of one metric in a MetricIndexDatabase instead of names in the metadata database
 	// Fail (series histories only), per step: k > 0 = the index flush of that step fails when it creates its k-th table
 	// file (the stores stay pending, the next step's flush is the retry); -1 = PrepareFlush runs, one more series is
-	// created, PrepareFlush runs again, then Flush
+	// created, PrepareFlush runs again, then Flush; -2 = PrepareFlush runs, one more series is created, then Flush
 	Fail []int `json:"fail,omitempty"`
 	// WFail (metadata histories), per step: n > 0 = the n-th writer call (Write / Sync / Flush of a manifest or table
 	// writer) of that step's flush fails - a full disk, an I/O error; the flush reports it or not, either way the next
@@ -581,6 +581,13 @@ func runSeriesCrashHistory(rep *vevid.Report, h chistory) {
 			return
 		}
 		idx.PrepareFlush()
+		if fail == -2 {
+			// what a shard does all the time: its event loop handles the flush event (PrepareFlush), then the next row
+			// (a new series), while the flush itself still waits for its goroutine
+			if !newSeries() {
+				return
+			}
+		}
 		crec.Resume()
 		crec.At("index flush starts")
 		if fail > 0 {
@@ -707,7 +714,7 @@ func runCrashPart(rep *vevid.Report, f *vevid.Flags) {
 		maxSteps, maxBatches = 4, 3
 		failKinds = []int{1, 2, 3, 4, 5, -1}
 	}
-	rep.Rule = fmt.Sprintf("all histories of <=%d flush steps, each preceded by 0..%d batches of new names (a batch = one metric in one of two namespaces sharing a bucket, one field, one tag key, one tag value); a crash image after EVERY seam call of every MetricMetaDatabase.Flush (kv manifest/table writers, renames, sequence-file sync); every distinct image is reopened: names found keep their ids, recovered ids are injective, names created afterwards do not reuse a recovered id. The same histories with batches = new series (tag sets) of one metric in a MetricIndexDatabase: a crash image after every seam call of MetricIndexDatabase.Flush; after recovery two new series and every earlier series are looked up / created: different tag sets never share a series id, the same tag set keeps its id when asked again; every series history also with one disturbed flush cycle (the index flush fails when it creates its k-th table file and is retried by the next step, k in %v; -1 = PrepareFlush twice with a new series in between). evaluations = distinct images recovered", maxSteps, maxBatches, failKinds)
+	rep.Rule = fmt.Sprintf("all histories of <=%d flush steps, each preceded by 0..%d batches of new names (a batch = one metric in one of two namespaces sharing a bucket, one field, one tag key, one tag value); a crash image after EVERY seam call of every MetricMetaDatabase.Flush (kv manifest/table writers, renames, sequence-file sync); every distinct image is reopened: names found keep their ids, recovered ids are injective, names created afterwards do not reuse a recovered id. The same histories with batches = new series (tag sets) of one metric in a MetricIndexDatabase: a crash image after every seam call of MetricIndexDatabase.Flush; after recovery two new series and every earlier series are looked up / created: different tag sets never share a series id, the same tag set keeps its id when asked again; every series history also with one disturbed flush cycle (the index flush fails when it creates its k-th table file and is retried by the next step, k in %v; -1 = PrepareFlush twice with a new series in between) and, for every step in turn, with a series created between PrepareFlush and Flush of that step. evaluations = distinct images recovered", maxSteps, maxBatches, failKinds)
 	rep.Bounds["max_flush_steps"] = maxSteps
 	rep.Bounds["max_batches_per_step"] = maxBatches
 	var idx int64
@@ -745,6 +752,16 @@ func runCrashPart(rep *vevid.Report, f *vevid.Flags) {
 				}
 				// the same series history with ONE disturbed flush cycle: step j (which has new series, and is followed
 				// by a step with new series) fails at its k-th table file, or runs PrepareFlush twice
+				// the same series history with a series created between PrepareFlush and Flush of step j (-2), also when
+				// nothing else is new in that cycle (the prepared stores are empty then)
+				for j := 0; j < len(prefix); j++ {
+					idx++
+					if f.Mine(idx) && !f.Expired() {
+						fl := make([]int, len(prefix))
+						fl[j] = -2
+						runCrashHistory(rep, chistory{Steps: append([]int(nil), prefix...), Series: true, Fail: fl})
+					}
+				}
 				for j := 0; j+1 < len(prefix); j++ {
 					if prefix[j] == 0 || prefix[j+1] == 0 {
 						continue
